@@ -383,11 +383,100 @@ theorem yl_roundtrip_fails :
        | .error _ => false) = true :=
   ⟨runs (ctx0 [B2, B2new]) [.parse B2 none], by decide +kernel, by decide +kernel⟩
 
--- OPEN: yl_roundtrip_partial —
---   ∀ s, Quiescent s → (every module of s has a revision, or the sources hold no other revision of it) →
---     (s.repo serves every module of s, and dateless imports resolve to the revisions in s) → no source has a fault →
---     ∃ s2, ylLoad s.repo (ylGen s) = .ok s2 ∧ (implView s2).Perm (implView s)
---   Evidence instead of a proof: `ylLoad` ≡ `ly_ctx_new_yldata` token for token on every generated history (K), and the
---   law itself evaluated on the implementation through `ly_ctx_new_ylmem` (L) in tools/checks/c19.py.
+/-! ### the complete yang-library data (`module` with submodules / features / deviations, `import-only-module`, `content-id`) -/
+
+/-- **what `ly_ctx_new_yldata` reads back** of the data `ly_ctx_get_yanglib_data` generates is name, revision and enabled features
+    of the implemented modules; the `import-only-module`, `submodule` and `deviation` lists and `content-id` play no role in
+    the rebuild (import-only modules come back through the imports, deviating modules through their own `module` entry) -/
+theorem yl_read_back (s : Ctx) : (ylExport s).core = ylGen s := ylExport_core s
+
+/-- what the yang-library data show of one module -/
+def ylView (m : Mod) : Bytes × Bytes × Bool × List Bytes × List Bytes × List Bytes :=
+  (m.src.name, m.src.rev, m.implemented, m.src.subNames, m.enabledNames, m.devBy.map (·.1))
+
+/-- **the data are a function of the ordered module list and the counter**: two contexts (however they were built) whose module
+    lists show the same names, revisions, implemented flags, submodules, enabled features and deviating modules in the same
+    order, with the same change count, have the same yang-library data -/
+theorem yl_export_deterministic (s s' : Ctx) (h : s'.mods.map ylView = s.mods.map ylView) (hc : s'.changeCount = s.changeCount) :
+    ylExport s' = ylExport s := by
+  have key : ∀ u : Ctx, ylExport u =
+      { modules := ((u.mods.map ylView).filter (·.2.2.1)).map fun x =>
+          { name := x.1, rev := x.2.1, subs := x.2.2.2.1, feats := x.2.2.2.2.1, devs := x.2.2.2.2.2 },
+        importOnly := ((u.mods.map ylView).filter (fun x => !x.2.2.1)).map fun x => { name := x.1, rev := x.2.1, subs := x.2.2.2.1 },
+        contentId := u.changeCount.toNat } := by
+    intro u
+    simp only [ylExport, List.filter_map, List.map_map, YlFull.mk.injEq]
+    exact ⟨rfl, rfl, trivial⟩
+  rw [key, key, h, hc]
+
+/-- **what the fixpoint `ylExport (rebuilt) = ylExport (original)` says**: the same implemented modules at the same revisions with
+    the same enabled features in the same order, the same deviating modules per module, the same import-only modules with
+    revisions and submodules, and the same content-id -/
+theorem yl_fixpoint_gives (s s2 : Ctx) (h : ylExport s2 = ylExport s) :
+    implView s2 = implView s ∧
+    (s2.mods.filter (·.implemented)).map (fun m => (m.key, m.src.subNames, m.devBy.map (·.1))) =
+      (s.mods.filter (·.implemented)).map (fun m => (m.key, m.src.subNames, m.devBy.map (·.1))) ∧
+    (s2.mods.filter (fun m => !m.implemented)).map (fun m => (m.key, m.src.subNames)) =
+      (s.mods.filter (fun m => !m.implemented)).map (fun m => (m.key, m.src.subNames)) ∧
+    s2.changeCount = s.changeCount := by
+  have hv : ∀ u : Ctx, implView u = (ylExport u).modules.map fun e => (e.name, e.rev, e.feats) := by
+    intro u; simp [implView, ylExport, ylMod, List.map_map, Function.comp_def]
+  have hd : ∀ u : Ctx, (u.mods.filter (·.implemented)).map (fun m => (m.key, m.src.subNames, m.devBy.map (·.1))) =
+      (ylExport u).modules.map fun e => ((e.name, e.rev), e.subs, e.devs) := by
+    intro u; simp [ylExport, ylMod, List.map_map, Function.comp_def, Mod.key]
+  have hi : ∀ u : Ctx, (u.mods.filter (fun m => !m.implemented)).map (fun m => (m.key, m.src.subNames)) =
+      (ylExport u).importOnly.map fun e => ((e.name, e.rev), e.subs) := by
+    intro u; simp [ylExport, ylImp, List.map_map, Function.comp_def, Mod.key]
+  refine ⟨by rw [hv, hv, h], by rw [hd, hd, h], by rw [hi, hi, h], ?_⟩
+  have := congrArg YlFull.contentId h
+  simp only [ylExport] at this
+  exact BitVec.eq_of_toNat_eq this
+
+/-- `top@2018-01-01` imports `aaa` without revision-date -/
+def TopD : ModSrc := { LyModel.Ctx.Ex.Top with rev := LyModel.Ctx.Ex.bs "2018-01-01" }
+
+open LyModel.Ctx.Ex in
+/-- the context of the order witness: `top` loaded while `aaa@2019-01-01` was the newest `aaa`, then `aaa@2020-01-01` appeared among
+    the sources, then `aaa@2019-01-01` was implemented — context order `top`, `aaa@2019-01-01` -/
+def wOrder : Ctx :=
+  (run { (run (ctx0 [A19, TopD]) (.parse TopD none)).2 with repo := [A19, A20, TopD] } (.setImpl (bs "aaa", bs "2019-01-01") none)).2
+
+open LyModel.Ctx.Ex in
+/-- the same modules in the other order: `aaa@2019-01-01` implemented first, then `top` -/
+def wOrder' : Ctx := runs (ctx0 [A19, A20, TopD]) [.parse A19 none, .parse TopD none]
+
+/-- **Order effects (`yl_roundtrip` with the F135 hypothesis is still false).**  Every module carries a revision, the sources serve
+    every module of the context, the yang-library data list the same two implemented modules — and the rebuild depends on their
+    ORDER: `ly_ctx_new_yldata` loads the `module` entries in the order of the data and resolves the imports of an entry before the
+    later entries are loaded.  With `aaa@2019-01-01` listed first, `top` (import without revision-date) is bound to it and the
+    rebuilt context is the original one; with `top` listed first its import is resolved to the newest source `aaa@2020-01-01`,
+    which stays in the rebuilt context as an additional import-only module: other yang-library data, another modules hash. -/
+theorem yl_roundtrip_order_fails :
+    (wOrder.mods.all fun m => !m.src.rev.isEmpty && wOrder.repo.contains m.src) = true ∧
+    (implView wOrder').Perm (implView wOrder) ∧
+    (match ylLoad wOrder'.repo (ylGen wOrder') with
+     | .ok s2 => (ylExport s2).modules == (ylExport wOrder').modules && (ylExport s2).importOnly == (ylExport wOrder').importOnly
+                  && s2.modulesHash == wOrder'.modulesHash
+     | .error _ => false) = true ∧
+    (match ylLoad wOrder.repo (ylGen wOrder) with
+     | .ok s2 => implView s2 == implView wOrder && (ylExport s2).importOnly != (ylExport wOrder).importOnly
+                  && s2.modulesHash != wOrder.modulesHash
+     | .error _ => false) = true := by
+  refine ⟨by decide +kernel, ?_, by decide +kernel, by decide +kernel⟩
+  have h1 : implView wOrder' = [(Ex.bs "aaa", Ex.bs "2019-01-01", []), (Ex.bs "top", Ex.bs "2018-01-01", [])] := by decide +kernel
+  have h2 : implView wOrder = [(Ex.bs "top", Ex.bs "2018-01-01", []), (Ex.bs "aaa", Ex.bs "2019-01-01", [])] := by decide +kernel
+  rw [h1, h2]
+  exact List.Perm.swap _ _ _
+
+-- OPEN: yl_roundtrip_partial at full strength —
+--   ∀ s, Quiescent s → (every module of s has a revision) → (s.repo serves every module of s) → (the order hypothesis: every
+--     import without revision-date of a module of s resolves, at the time its importer is re-loaded in data order, to the
+--     revision it is bound to in s) → no source has a fault → ∃ s2, ylLoad s.repo (ylGen s) = .ok s2 ∧ ylExport s2 = ylExport s
+--     ∧ s2.modulesHash = s.modulesHash
+--   Proved: what the rebuild reads (`yl_read_back`), that data and hash are functions of the ordered module view
+--   (`yl_export_deterministic`, `hash_deterministic`), what the fixpoint gives (`yl_fixpoint_gives`), and that without the order
+--   hypothesis the statement is false (`yl_roundtrip_order_fails`, besides `yl_roundtrip_fails` for modules without revision).
+--   Evidence for the rest: `ylLoad` ≡ `ly_ctx_new_yldata` and `ylExport` ≡ `ly_ctx_get_yanglib_data` token for token on every
+--   generated history (K), and the law itself evaluated on the implementation through `ly_ctx_new_ylmem` (L), tools/checks/c19.py.
 
 end LyModel.Props.C19
